@@ -25,9 +25,17 @@ def regenerate():
             f.write('[workspace]\nmembers = ["codegen", "tonic-build"]\nresolver = "2"\n[workspace.package]\nrust-version = "1.75"\n'
                     '[workspace.lints.rust]\nmissing_docs = "allow"\n[workspace.lints.rustdoc]\nbroken_intra_doc_links = "allow"\n')
         env = dict(os.environ, CARGO_NET_OFFLINE='true', CARGO_TARGET_DIR=os.path.join(core.HARNESS, 'target', 'codegen'))
-        p = subprocess.run(['cargo', 'run', '--offline', '-q', '-p', 'codegen'], cwd=tmp, env=env, capture_output=True, text=True, timeout=1500)
+        for attempt in (1, 2):      # one retry: a transient cargo failure here is a tool problem, not a finding
+            p = subprocess.run(['cargo', 'run', '--offline', '-q', '-p', 'codegen'], cwd=tmp, env=env, capture_output=True, text=True, timeout=1500)
+            if p.returncode == 0:
+                break
+            os.makedirs(core.WORK, exist_ok=True)
+            with open(os.path.join(core.WORK, f'codegen_regenerate_attempt{attempt}.stderr'), 'w') as f:
+                f.write(p.stderr)
+            time.sleep(3)
         if p.returncode != 0:
-            raise ToolError('codegen did not run in the scratch copy:\n' + p.stderr[-3000:])
+            last = (p.stderr.strip().splitlines() or ['?'])[-1]
+            raise ToolError(f'codegen did not run in the scratch copy (rc={p.returncode}, {last[:200]}):\n' + p.stderr[-3000:])
         diffs = []
         n = 0
         for crate in ('tonic-health', 'tonic-reflection', 'tonic-types'):
